@@ -22,7 +22,7 @@ RULE = ("(a) system: every routing object per class (transition matrices with ex
         "element of probability 0; deterministic routers enumerated exhaustively.  Non-trivial (a): >= 20 decisions incl. >= 1 with "
         ">= 2 possible destinations; distinct by digest.")
 ASSUMPTIONS = ["JSQ 'waiting line' = customers present minus customers in live service, recomputed from the lists"]
-WALL = {"quick": 50, "thorough": 540}
+WALL = {"quick": 150, "thorough": 540}
 
 
 def nontrivial(a, spec, res):
@@ -141,8 +141,8 @@ def subchecks(tier):
                          "inf": 0.3, "capacity": 0.4, "prio_reroute": 0.5, "jockeying": 0.5})
     return [
         system_subcheck("system", prof, lambda spec: [Fidelity(spec)], nontrivial, classes=classes, obs=True,
-                        n={"quick": 2400, "thorough": 40000}, rule="routing decisions vs spec with true populations"),
-        SubCheck("random_choice", choice_execute, strategy=choice_case(), n={"quick": 16000, "thorough": 200000}, kind="unit",
+                        n={"quick": 7200, "thorough": 40000}, rule="routing decisions vs spec with true populations"),
+        SubCheck("random_choice", choice_execute, strategy=choice_case(), n={"quick": 48000, "thorough": 200000}, kind="unit",
                  rule="dyadic probability vectors (1-6 entries, many zeros) x uniform variate incl. 0.0 and boundary values; non-trivial = vector has a zero",
                  is_spec=False),
         SubCheck("deterministic_routers", router_execute, cases=router_cases, kind="unit", exhaustive=True,
